@@ -5,6 +5,7 @@
 (* shortest history that exports a stale signature - a PREDICTION that the harness then replays on the  *)
 (* real object (only the R-spec's rejection of the real observation is a finding).                      *)
 EXTENDS Rot
+VARIABLE lane       \* the four parts of the machine do not interact: one lane per behaviour keeps the state graph small
 K(c, i) == Key(c, i)
 Menu21 == {<<K("p256", 1)>>, <<K("p256", 1), K("p256", 2)>>, <<K("p384", 2), K("p384", 1), K("p384", 3)>>}
 Menu1  == {<<K("rsa2048", 1)>>, <<K("rsa2048", 2), K("rsa4096", 1)>>}
@@ -23,11 +24,14 @@ DoSetUserData == \E len \in {0, 8} : len # obj.ud.len /\ SetUserData(len)
 DoSetConstraints == \E c \in {0, 1} : SetConstraints(c)
 DoBuild1 == \E ks \in Menu1 : \E used \in 1..Len(ks) : \E img \in {0, 4660} : Build1(ks, used, img, 3)
 DoSetImageLength == \E n \in {2048} : SetImageLength(n)
-Next == \/ DoCompute \/ DoWriteFile \/ DoReadByPath
-        \/ DoBuild21 \/ Export21 \/ Parse21 \/ DoSetUserData \/ DoSetConstraints
-        \/ DoBuild1 \/ Export1 \/ Parse1 \/ DoSetImageLength
-Spec == Init /\ [][Next]_vars
-Bounded == obj.ud.v <= 2 /\ TLCGet("level") <= 6
+Next == /\ UNCHANGED lane
+        /\ \/ lane = "compute" /\ DoCompute
+           \/ lane = "files" /\ (DoWriteFile \/ DoReadByPath)
+           \/ lane = "cb21" /\ (DoBuild21 \/ Export21 \/ Parse21 \/ DoSetUserData \/ DoSetConstraints)
+           \/ lane = "cb1" /\ (DoBuild1 \/ Export1 \/ Parse1 \/ DoSetImageLength)
+MCInit == Init /\ lane \in {"compute", "files", "cb21", "cb1"}
+Spec == MCInit /\ [][Next]_<<vars, lane>>
+Bounded == obj.ud.v <= 2 /\ TLCGet("level") <= (CASE lane = "files" -> 4 [] lane = "compute" -> 2 [] OTHER -> 6)
 \* the value a block reports never changes along a history (only Build chooses keys)
-RkthStable == [][obj.kind = obj'.kind /\ obj.kind # "none" /\ act'.a \notin {"Build21", "Build1"} => obj'.keys = obj.keys]_vars
+RkthStable == [][obj.kind = obj'.kind /\ obj.kind # "none" /\ act'.a \notin {"Build21", "Build1"} => obj'.keys = obj.keys]_<<vars, lane>>
 =============================================================================
